@@ -88,9 +88,16 @@ def outcome(kind, ret):
     return kind.lower()
 
 
-def decision_table(ctx, fn, max_visits=1):
+FULL = re.compile(r'^(debug::(DebugSymbols::insert|remove_excess_whitespace|CallTracker::(track_call|with_file|get_cmr|next_id_cmr)|TrackedCall::map_value)(::\{closure#\d+\})*|<A as parse::ParseFromStr>::parse_from_str|TemplateProgram::new|TemplateProgram::instantiate|CompiledProgram::new|<value::Value as std::fmt::Display>::fmt(::\{closure#\d+\})*|<parse::ExprTree<\'_> as std::fmt::Display>::fmt|types::TypeInner::<A>::display|<pattern::Pattern as std::fmt::Display>::fmt|error::Span::to_slice|<error::RichError as std::fmt::Display>::fmt|<witness::(WitnessValues|Arguments) as std::fmt::Display>::fmt|<witness::(WitnessValues|Arguments) as parse::ParseFromStr>::parse_from_str(::\{closure#\d+\})*|value::Value::parse_from_str|witness::<impl parse::ParseFromStr for types::ResolvedType>::parse_from_str)$')
+
+
+def decision_table(ctx, fn, max_visits=1, full=None):
+    """full: also havoc loop-carried variables at loop heads, record every call with its arguments (`trace`) and the
+    final values of the loop-carried variables (`state`): used for printers and the text/debug-symbol plumbing."""
+    if full is None:
+        full = bool(FULL.match(fn.path))
     rows = []
-    for kind, p, ret in explore(ctx, fn, max_visits=max_visits):
+    for kind, p, ret in explore(ctx, fn, max_visits=max_visits, havoc=full, max_paths=6000):
         if p is None:
             rows.append({'conds': ['<path explosion>'], 'checks': [], 'out': 'toomany'})
             continue
@@ -114,7 +121,28 @@ def decision_table(ctx, fn, max_visits=1):
             if len(val) > 360:
                 import hashlib
                 val = val[:300] + '…#' + hashlib.sha1(val.encode()).hexdigest()[:10]
-        rows.append({'conds': conds, 'checks': checks, 'effects': effects, 'out': out, 'value': val})
+        row = {'conds': conds, 'checks': checks, 'effects': effects, 'out': out, 'value': val}
+        if full:
+            tr = []
+            for e in p.events:
+                if e[0] == 'call':
+                    a = ', '.join(S(x)[:90] for x in e[2])
+                    tr.append('%s(%s)' % (e[1].split('::')[-1] if not e[1].startswith('<') else e[1].split('>::')[-1], a[:240]))
+            row['trace'] = tr
+            st = {}
+            for loc, v in p.env.items():
+                if isinstance(loc, int) and loc in fn.names:
+                    init = ('havoc', fn.names[loc])
+                    if any(x == init for x in [init]) and isinstance(v, tuple) and v != init and any(e == init for e in [init]):
+                        pass
+            # final values of loop-carried variables that were havocked on this path
+            from .core import Explorer as _E
+            row['state'] = {}
+            for loc, name in fn.names.items():
+                v = p.env.get(loc)
+                if isinstance(v, tuple) and name in getattr(p, 'havocked', ()):
+                    row['state'][name] = S(v)[:120]
+        rows.append(row)
     return rows
 
 
@@ -122,7 +150,7 @@ SCOPE_EFFECTS = ('push_scope', 'pop_scope', 'push_main_scope', 'pop_main_scope',
 
 
 def row_key(r):
-    return json.dumps([r['conds'], r['checks'], r['out'], r.get('effects', []), r.get('value', '')], ensure_ascii=False)
+    return json.dumps([r['conds'], r['checks'], r['out'], r.get('effects', []), r.get('value', ''), r.get('trace', []), r.get('state', {})], ensure_ascii=False, sort_keys=True)
 
 
 EXTRA = re.compile(r'^(value::UIntValue::parse_decimal|value::Value::(from_const_expr|is_of_type|parse_from_str)|types::AliasedType::(resolve|resolve_builtin)(::\{closure#\d+\})?|types::BuiltinAlias::resolve|types::UIntType::(from_bit_width|bit_width|byte_width)|num::(NonZero)?Pow2Usize::new|<num::U256 as std::str::FromStr>::from_str|TemplateProgram::(new|instantiate)|CompiledProgram::new)$')
@@ -134,7 +162,7 @@ def guard_functions(fx):
     for path, fn in fx.F.items():
         if fn.macro or '::promoted[' in path or fn.kind in ('Const', 'AssocConst'):
             continue
-        if path.startswith(('jet::', 'named::', 'compile::', 'dummy_env::', 'debug::', 'serde::')):
+        if path.startswith(('jet::', 'named::', 'compile::', 'dummy_env::', 'debug::', 'serde::')) and not FULL.match(path):
             continue
         hit = False
         for b in fn.blocks.values():
@@ -153,7 +181,7 @@ def guard_functions(fx):
                 for o in t['args']:
                     if o.get('k') == 'const' and re.search(r'error::Error::\w+$', o.get('def') or ''):
                         hit = True
-        if hit or EXTRA.match(path) or re.match(r'<ast::\w+ as ast::AbstractSyntaxTree>::analyze$', path) or path.startswith('ast::Scope::') or path in ('ast::Program::analyze', 'ast::analyze_named_module'):
+        if hit or EXTRA.match(path) or FULL.match(path) or re.match(r'<ast::\w+ as ast::AbstractSyntaxTree>::analyze$', path) or path.startswith('ast::Scope::') or path in ('ast::Program::analyze', 'ast::analyze_named_module'):
             out.append(path)
     return sorted(out)
 
